@@ -652,7 +652,7 @@ func check(h *history) {
 	}
 	simrt.CountN(cHistOps, int64(len(ops)))
 	if len(ops) > 0 {
-		switch porcupine.CheckOperationsTimeout(regModel, ops, 30*time.Second) {
+		switch porcupine.CheckOperationsTimeout(regModel, ops, 10*time.Second) {
 		case porcupine.Ok:
 			simrt.Count(cPorcOK)
 		case porcupine.Unknown:
@@ -737,20 +737,21 @@ func overlapsReg(h *history, up bool, inv, ret int64) bool {
 }
 
 // canTruncate reports whether some choice of possible sizes makes the stream
-// end inside a command.
-func canTruncate(h *history, d decOp, i int, depth int) bool {
-	if i >= len(d.stream) {
-		return false
-	}
-	if depth > 400 {
-		return true
-	}
-	for _, n := range possibleSizes(h, d.up, d.stream[i], d.inv, d.ret) {
-		if i+1+n > len(d.stream) {
-			return true
+// end inside a command (positions reachable by complete commands are computed
+// once each: the possible sizes at a position do not depend on the path).
+func canTruncate(h *history, d decOp) bool {
+	n := len(d.stream)
+	reach := make([]bool, n+1)
+	reach[0] = true
+	for i := 0; i < n; i++ {
+		if !reach[i] {
+			continue
 		}
-		if canTruncate(h, d, i+1+n, depth+1) {
-			return true
+		for _, sz := range possibleSizes(h, d.up, d.stream[i], d.inv, d.ret) {
+			if i+1+sz > n {
+				return true
+			}
+			reach[i+1+sz] = true
 		}
 	}
 	return false
@@ -766,7 +767,7 @@ func checkDecode(h *history, d decOp) bool {
 	sig := "r2.framing:" + d.where
 	if d.err {
 		simrt.Count(cDecodeErr)
-		if !canTruncate(h, d, 0, 0) {
+		if !canTruncate(h, d) {
 			simrt.Report(sig, fmt.Sprintf("decoder reported an error for stream %x (up=%v) although every registered size frames it completely", d.stream, d.up))
 		}
 		return inflight
